@@ -142,12 +142,17 @@ var oddAmounts = []string{
 	"abc", "1..2", " 1", "1 ", "0x10", "1_000", "1e", "e5", ".", "+", "-", "NaN", "Infinity", "1e+", "--1", "1,5", "１", "1e1.5", "+-1",
 }
 
-// outside the modelled domain (binary exponent, long mantissa, large exponent); run in isolated sessions only
-var outsideAmounts = []string{"1p3", "1P-2", "1e41", "1e-41", "1e400", "1e1000", "12345678901234567890123456789012345678901", "1e0001"}
+// binary exponent, long mantissa, large exponents: formerly outside the modelled domain
+var outsideAmounts = []string{"1p3", "1P-2", "1e41", "1e-41", "1e400", "1e1000", "12345678901234567890123456789012345678901", "1e0001", "1e-1000", "0.5p1", "1e20000", "1e99999999999", "-1p-70", "123456789012345678901234567890123456789012345678901234567890123456789012345678901234567890e-80"}
 
 func (g *Gen) amount(bal *big.Int) string {
 	switch g.r.Intn(10) {
-	case 0, 1:
+	case 0:
+		return oddAmounts[g.r.Intn(len(oddAmounts))]
+	case 1:
+		if g.r.Chance(1, 3) {
+			return outsideAmounts[g.r.Intn(len(outsideAmounts))]
+		}
 		return oddAmounts[g.r.Intn(len(oddAmounts))]
 	case 2:
 		// more than 18 decimals
@@ -157,47 +162,9 @@ func (g *Gen) amount(bal *big.Int) string {
 	}
 }
 
-// inModelDomain mirrors the Lean model's domain bounds (Parsed.outside): used only to keep
-// out-of-domain strings in isolated sessions; a wrong answer here shows as a diff, not as agreement.
-func inModelDomain(s string) bool {
-	t := strings.TrimLeft(s, "+-")
-	if strings.ContainsAny(t, "pP") {
-		// could be an error string as well; the driver decides, we only isolate
-		return false
-	}
-	mant := t
-	exp := ""
-	if i := strings.IndexAny(t, "eE"); i >= 0 {
-		mant, exp = t[:i], t[i+1:]
-	}
-	digits := 0
-	for _, c := range mant {
-		if c >= '0' && c <= '9' {
-			digits++
-		}
-	}
-	if digits > 40 {
-		return false
-	}
-	exp = strings.TrimLeft(exp, "+-")
-	allDigits := exp != ""
-	for _, c := range exp {
-		if c < '0' || c > '9' {
-			allDigits = false
-		}
-	}
-	if allDigits {
-		if len(exp) > 3 {
-			return false
-		}
-		n := 0
-		fmt.Sscanf(exp, "%d", &n)
-		if n > 40 {
-			return false
-		}
-	}
-	return true
-}
+// inModelDomain: every string is evaluated by the model now (C18's exact big.Float semantics); kept as a
+// hook for generators, always true.
+func inModelDomain(s string) bool { return true }
 
 // ---- scripts
 
@@ -322,6 +289,34 @@ func (g *Gen) bomb(ci int, self common.Address) Script {
 	return append(s, Act{Kind: "sd", To: ben})
 }
 
+// scriptHas reports whether running the script can reach an action of the given kind.
+func (w *World) scriptHas(s Script, kind string, seen map[string]bool) bool {
+	for _, a := range s {
+		if a.Kind == kind {
+			return true
+		}
+		switch a.Kind {
+		case "c", "cc", "dc", "sc", "ac":
+			k := hexAddr(a.To)
+			if !seen[k] {
+				seen[k] = true
+				if w.scriptHas(w.codes[a.To], kind, seen) {
+					return true
+				}
+			}
+		case "cr":
+			k := fmt.Sprintf("init%d", a.Init)
+			if !seen[k] {
+				seen[k] = true
+				if w.scriptHas(w.inits[a.Init], kind, seen) {
+					return true
+				}
+			}
+		}
+	}
+	return false
+}
+
 // selfDestructReach reports whether running code at `a` can reach a SELFDESTRUCT (conservatively).
 func (w *World) scriptMayBurn(s Script, seen map[string]bool) bool {
 	for _, a := range s {
@@ -375,6 +370,18 @@ func (g *Gen) setup(withContracts bool) {
 	// lower ids; K0..K2 may call higher-indexed contracts and create anything.
 	install := func(i int, maxInit int) {
 		sc := g.script(i, contracts[i], maxInit, false)
+		if i == 2 && g.r.Chance(2, 3) {
+			// the staker: a contract that may become the account of a miner and uses the stake opcodes
+			ops := g.stakeOps()
+			pos := 0
+			if len(sc) > 0 {
+				pos = g.r.Intn(len(sc) + 1)
+				if k := sc[len(sc)-1].Kind; pos == len(sc) && (k == "sd" || k == "rv" || k == "iv" || k == "st") {
+					pos = len(sc) - 1
+				}
+			}
+			sc = append(append(append(Script{}, sc[:pos]...), ops...), sc[pos:]...)
+		}
 		if i >= 3 && g.r.Chance(1, 2) {
 			sc = g.bomb(i, contracts[i])
 		}
@@ -479,68 +486,153 @@ func (w *World) scriptCost(s Script, depth int) int {
 
 const maxScriptCost = 120 // x ~2M gas per action stays below the 500M minimum limit
 
-// lockTx: miner apply / add-stake with stake amounts around the minimum stakes and the sender's balance.
-func (g *Gen) lockTx() {
-	w := g.w
-	src := g.pickEOA()
-	bal := new(big.Int).Div(w.adb.GetBalance(src), oneRPG).Uint64()
-	n := uint64(g.r.Pick(0, 399, 400, 400, 401, 1999, 2000, 2000, 2001))
-	switch g.r.Intn(4) {
-	case 0:
-		n = bal
-	case 1:
-		n = bal + 1
-	case 2:
-		if bal > 0 {
-			n = bal - 1
+// accountTaken: a known miner has this account, or an apply for it is queued in the current block
+// (the code resolves several miners on one account by trie-key order; the harness keeps accounts unique).
+func (w *World) accountTaken(a common.Address) bool {
+	for _, m := range w.miners {
+		if m.account == a {
+			return true
 		}
 	}
-	if w.srcInQueue(src) {
-		g.operatorTx()
-		return
-	}
-	apply := g.r.Chance(2, 3) || len(w.miners) == 0
-	// a pending (same block) apply for this account makes the registry outcome order-dependent: keep one per block
-	for _, pm := range w.pendingMiners {
-		if pm.account == src {
-			apply = false
-		}
-	}
-	spoil := 0
-	if g.r.Chance(1, 8) {
-		spoil = 1 + g.r.Intn(2)
-	}
-	w.QueueLock(g, src, n, apply, spoil)
-}
-
-// srcInQueue: the address is the sender of a queued lock/node transaction of the current block
-// (their registry outcomes would depend on each other; keep one per sender and block)
-func (w *World) srcInQueue(a common.Address) bool {
 	for _, q := range w.queue {
-		if (q.feat["lock"] || q.feat["node"]) && common.HexToAddress(q.tx.Source) == a {
+		if strings.HasPrefix(q.line, "tx apply ") && strings.Fields(q.line)[6] == hexAddr(a) {
 			return true
 		}
 	}
 	return false
 }
 
-// nodeTx: OperatorNode transaction, mostly from an account that owns a miner.
-func (g *Gen) nodeTx() {
+func (g *Gen) richEOA() common.Address {
+	var rich []common.Address
+	for _, a := range eoas {
+		if g.w.adb.GetBalance(a).Cmp(rpg(400)) >= 0 {
+			rich = append(rich, a)
+		}
+	}
+	if len(rich) > 0 && g.r.Chance(4, 5) {
+		return rich[g.r.Intn(len(rich))]
+	}
+	return g.pickEOA()
+}
+
+func (g *Gen) stakeAmount(src common.Address) uint64 {
+	bal := new(big.Int).Div(g.w.adb.GetBalance(src), oneRPG).Uint64()
+	switch g.r.Intn(5) {
+	case 0:
+		return bal
+	case 1:
+		return bal + 1
+	case 2:
+		if bal > 0 {
+			return bal - 1
+		}
+	}
+	return uint64(g.r.Pick(0, 1, 399, 400, 400, 401, 500, 1999, 2000, 2000, 2001, 2500))
+}
+
+// minerTx: miner apply / add stake / refund / OperatorNode.
+func (g *Gen) minerTx() {
 	w := g.w
-	src := g.pickEOA()
-	if len(w.miners) > 0 && g.r.Chance(4, 5) {
-		src = w.miners[g.r.Intn(len(w.miners))].account
+	known := func() uint64 {
+		if len(w.miners) > 0 && g.r.Chance(5, 6) {
+			return w.miners[g.r.Intn(len(w.miners))].seq
+		}
+		return w.minerSeq + 1000 // no such miner
 	}
-	if w.srcInQueue(src) {
-		g.operatorTx()
-		return
+	switch g.r.Intn(20) {
+	case 0, 1, 2, 3, 4, 5, 6, 7, 8:
+		src := g.richEOA()
+		seq := known()
+		if g.r.Chance(7, 8) || seq > w.minerSeq {
+			w.minerSeq++
+			seq = w.minerSeq
+		}
+		typ := byte(g.r.Pick(0, 0, 1, 1, 1, 7))
+		stake := g.stakeAmount(src)
+		if g.r.Chance(2, 3) {
+			// a plausible application: enough stake for the type, if the payer can afford it
+			bal := new(big.Int).Div(w.adb.GetBalance(src), oneRPG).Uint64()
+			if bal >= 2001 && typ != 0 {
+				typ, stake = 1, uint64(g.r.Pick(2000, 2001, 2500))
+			} else if bal >= 401 {
+				typ, stake = 0, uint64(g.r.Pick(400, 401, 800))
+			}
+		}
+		var account common.Address
+		switch g.r.Intn(6) {
+		case 0, 1, 2:
+			account = src
+		case 3, 4:
+			account = contracts[2]
+		default:
+			account = g.pickEOA()
+		}
+		if w.accountTaken(account) && g.r.Chance(3, 4) {
+			// mostly avoid the "account already owns a miner" refusal, never create a second miner in one block
+			for _, a := range eoas {
+				if !w.accountTaken(a) {
+					account = a
+					break
+				}
+			}
+		}
+		for _, q := range w.queue {
+			if strings.HasPrefix(q.line, "tx apply ") && strings.Fields(q.line)[6] == hexAddr(account) {
+				g.operatorTx()
+				return
+			}
+		}
+		w.QueueApply(src, seq, typ, stake, account, g.r.Chance(7, 8))
+	case 9, 10, 11, 12:
+		src := g.richEOA()
+		w.QueueAdd(src, known(), uint64(g.r.Pick(0, 1, 5, 100, 1000, int(g.stakeAmount(src)%100000))))
+	case 13, 14, 15:
+		for _, q := range w.queue {
+			if q.feat["refund"] {
+				g.operatorTx() // one refund transaction per block (the context list quirk is C20's subject)
+				return
+			}
+		}
+		seq := known()
+		src := g.pickEOA()
+		if m := w.findMiner(seq); m != nil && g.r.Chance(5, 6) {
+			src = m.account
+		}
+		amt := []string{"1", "100", "400", "1600", "2000", "18446744073709551615", "0", "abc", "-1", "", "18446744073709551616", "3"}[g.r.Intn(12)]
+		w.QueueRefund(src, seq, amt, g.r.Chance(7, 8))
+	default:
+		src := g.pickEOA()
+		if len(w.miners) > 0 && g.r.Chance(4, 5) {
+			src = w.miners[g.r.Intn(len(w.miners))].account
+		}
+		w.QueueNode(src)
 	}
-	w.QueueNode(src)
+}
+
+// stakeOps: actions for a contract that may be the account of a miner.
+func (g *Gen) stakeOps() Script {
+	half := new(big.Int).Div(oneRPG, big.NewInt(2))
+	vals := []*big.Int{half, rpg(1), new(big.Int).Add(rpg(1), new(big.Int).Mul(big.NewInt(9), new(big.Int).Div(oneRPG, big.NewInt(10)))),
+		rpg(3), rpg(400), rpg(2000), big.NewInt(1), big.NewInt(0),
+		new(big.Int).Mul(new(big.Int).Lsh(big.NewInt(1), 64), oneRPG)}
+	var s Script
+	n := 1 + g.r.Intn(3)
+	for i := 0; i < n; i++ {
+		switch g.r.Intn(7) {
+		case 0, 1, 2:
+			s = append(s, Act{Kind: "ustk", Val: vals[g.r.Intn(len(vals))]})
+		case 3, 4, 5:
+			s = append(s, Act{Kind: "stk", Val: vals[g.r.Intn(len(vals))]})
+		default:
+			s = append(s, Act{Kind: "usa"})
+		}
+	}
+	return s
 }
 
 // after: an empty block run through VMExecutor.after — mostly the next height, sometimes jumping to (just
 // before / exactly) the next reward height, where everything escrowed so far is paid out.
-func (g *Gen) after() {
+func (g *Gen) after() (before, after, rewards *big.Int) {
 	w := g.w
 	rb := common.GetRewardBlocks()
 	h := w.height + 1
@@ -557,7 +649,7 @@ func (g *Gen) after() {
 	if len(w.miners) > 0 && g.r.Bool() {
 		castor = w.miners[g.r.Intn(len(w.miners))].id
 	}
-	w.After(h, castor)
+	return w.After(h, castor)
 }
 
 func (g *Gen) refund() {
